@@ -1,7 +1,7 @@
 /-
 Model of the type-parameter reconstruction for generic structs (fields.go parseFields:
-`typeParamsMap[i] = names of group i`, `typeParams += constraint` ONLY when the constraint is an
-identifier; new.go makeNew pairs `typeParams[i]` with `typeParamsMap[i]`).
+`typeParamsMap[i] = names of group i`, `typeParams += ExprString(constraint)`; new.go makeNew pairs
+`typeParams[i]` with `typeParamsMap[i]`).
 -/
 namespace ShootVerif.TParams
 
@@ -11,8 +11,9 @@ structure Group where
   isIdent : Bool         -- the constraint expression is a plain identifier (`any`, `comparable`, `Number`)
   deriving Repr, DecidableEq
 
-/-- `g.typeParams`: the identifier constraints, in order -/
-def typeParams (gs : List Group) : List String := (gs.filter (·.isIdent)).map (·.constraint)
+/-- `g.typeParams`: every constraint expression, printed (f987a47; before that fix only the identifier
+    constraints were kept and the pairing with the groups went wrong) -/
+def typeParams (gs : List Group) : List String := gs.map (·.constraint)
 
 /-- makeNew: for i, t in typeParams: `"<names of group i> <t>"` -/
 def paramGroups (gs : List Group) : List (String × String) :=
